@@ -368,21 +368,31 @@ where
         let offset = index
             .iter()
             .find(|record| record.reference_sequence_id().is_none())
-            .map(|record| SeekFrom::Start(record.offset()))
-            .unwrap_or(SeekFrom::End(0));
+            .map(|record| record.offset());
 
-        self.get_mut().seek(offset)?;
-
-        Ok(self.records(header).filter_map(|result| match result {
-            Ok(record) => {
-                if record.flags().is_unmapped() {
-                    Some(Ok(record))
-                } else {
-                    None
-                }
+        // A file that has no unplaced records has no index record for them, i.e., there is
+        // nothing to read. The end of the stream is not the start of a container.
+        let records = match offset {
+            Some(position) => {
+                self.get_mut().seek(SeekFrom::Start(position))?;
+                Some(self.records(header))
             }
-            Err(e) => Some(Err(e)),
-        }))
+            None => None,
+        };
+
+        Ok(records
+            .into_iter()
+            .flatten()
+            .filter_map(|result| match result {
+                Ok(record) => {
+                    if record.flags().is_unmapped() {
+                        Some(Ok(record))
+                    } else {
+                        None
+                    }
+                }
+                Err(e) => Some(Err(e)),
+            }))
     }
 }
 
